@@ -96,8 +96,8 @@ SYNC_INVS = ["Correct", "OrderCorrect", "DirCorrect", "OneToOneInv", "Mutual", "
 def _sync_cfgs(tier):
     if tier == QUICK:
         # max_tau from well below an ISI to beyond the recording length (TauQ are quarters)
-        return [dict(TS=0, TE=5, MaxSp=6, MRTSQ=tla_set([0, 12]), TauQ=tla_set([0, 2, 4, 14])),
-                dict(TS=-2, TE=5, MaxSp=3, MRTSQ=tla_set([0, 8]), TauQ=tla_set([0, 3, 40]))]
+        return [dict(TS=0, TE=5, MaxSp=6, MRTSQ=tla_set([0, 12]), TauQ=tla_set([0, 2, 14])),
+                dict(TS=-2, TE=5, MaxSp=3, MRTSQ=tla_set([0, 8]), TauQ=tla_set([0, 4, 40]))]
     return [dict(TS=0, TE=6, MaxSp=7, MRTSQ=tla_set([0, 8, 12, 24]), TauQ=tla_set([0, 2, 4, 8, 16])),
             dict(TS=-2, TE=6, MaxSp=3, MRTSQ=tla_set([0, 8, 12]), TauQ=tla_set([0, 2, 3, 6, 20, 100])),
             dict(TS=0, TE=9, MaxSp=3, MRTSQ=tla_set([0, 12]), TauQ=tla_set([0, 4, 6, 30]))]
@@ -228,6 +228,10 @@ def c15(ctx):
            "lists: default_thresh^2 = pooled mean square of the spec; 'auto' = explicit threshold; monotone in MRTS")
     _multi(ctx, dict(N=3, IdxMode='"pairs"', Sample=4 if q else 8, TE=5), mfns[:9], [], ["multi_auto"],
            "index selections: the pool is the whole list that is handed over")
+    # a longer recording with tight spikes, so that the automatic threshold changes coincidences
+    _multi(ctx, dict(N=3, TE=9, MaxSp=3, Sample=6 if q else 14), ["sync_profile", "sync", "sync_matrix", "isi_distance",
+                                                                   "order", "filter"], [], ["multi_auto"],
+           "longer recording: the pooled threshold differs from the per-pair thresholds")
     ctx.assumptions += ["the irrational automatic threshold is compared as a double with sqrt of the exact pooled mean square"]
     return ctx.finish(rule="every ordered pair of trains x ordered pairs MRTS1 <= MRTS2 from the configured set; "
                            "one case = one TLC state of Relations")
@@ -279,9 +283,9 @@ def c12(ctx):
              ["Correct", "Export"], "twin_isi"),
             ("SpikeScan", dict(TS=0, TE=5 if q else 6, MaxSp=6 if q else 7, MRTSQ=tla_set([0, 10]), RISet="{FALSE, TRUE}", DevF9="FALSE"),
              ["Correct", "Export"], "twin_spike"),
-            ("SyncScan", dict(TS=0, TE=5 if q else 6, MaxSp=6 if q else 7, MRTSQ=tla_set([0, 12]), TauQ=tla_set([0, 4] if q else [0, 2, 4]), DevF1="FALSE"),
+            ("SyncScan", dict(TS=0, TE=5 if q else 6, MaxSp=6 if q else 7, MRTSQ=tla_set([0, 12]), TauQ=tla_set([0, 4, 14] if q else [0, 2, 4, 18]), DevF1="FALSE"),
              ["Correct", "OrderCorrect", "DirCorrect", "AccCorrect", "Export"], "twin_sync"),
-            ("SyncScan", dict(TS=0, TE=7 if q else 9, MaxSp=3, MRTSQ=tla_set([0, 12]), TauQ=tla_set([0, 6]), DevF1="FALSE"),
+            ("SyncScan", dict(TS=0, TE=7 if q else 9, MaxSp=3, MRTSQ=tla_set([0, 12]), TauQ=tla_set([0, 6, 24]), DevF1="FALSE"),
              ["Correct", "OrderCorrect", "DirCorrect", "AccCorrect", "Export"], "twin_sync")]
     for mod, c, invs, ck in runs:
         res = run_tlc(mod, c, invs, workers=16, timeout=6000)
@@ -346,7 +350,7 @@ def c09(ctx):
                            "distinct = distinct (kind, operation, shape of the heap) classes")
 
 
-QUERY_INVS = ["IntegralExact", "FullEqWhole", "Additive", "MultiInterval", "EvalRule", "Plottable",
+QUERY_INVS = ["IntegralExact", "FullEqWhole", "Additive", "MultiInterval", "EvalRule", "Plottable", "BadIsRejected",
               "OpenIntervalSums", "DiscFull", "DiscMulti", "SmoothingIsUnitMean", "Export"]
 
 
@@ -429,6 +433,7 @@ def c05(ctx):
     fns = ["isi_distance", "spike_distance", "sync", "order"]
     q = ctx.tier == QUICK
     runs = [dict(N=3, TE=4, MaxSp=2, IvCodes="{0, 105, 208, 307}", Sample=0 if not q else 8),
+            dict(N=3, TE=4, MaxSp=2, IvCodes="{0, 206}", Sample=4 if q else 8, IdxMode='"all"', TAU4=8),
             dict(N=2, TE=4, MaxSp=3, IvCodes="{0, 3, 204, 508, 8}", IdxMode='"none"', MRTS4=6, TAU4=4, RIFlag="TRUE"),
             dict(N=4, TE=4, MaxSp=2, IvCodes="{0, 206}", Sample=4 if q else 7, MRTS4=8)]
     if not q:
@@ -458,6 +463,11 @@ def c06(ctx):
                ["PointwiseMean", "PooledEvents", "MatrixIsBivariate"], ["multi_abs", "multi_perm"], "second origin, 3 spikes")
         _multi(ctx, dict(N=5, TE=4, MaxSp=2, Sample=3), ["isi_profile", "sync_profile", "isi_distance", "sync"],
                ["PointwiseMean", "PooledEvents"], ["multi_abs", "multi_perm"], "N = 5")
+    import traces as _traces
+    _traces.validate_multi(ctx, ctx.seed + 201, 120 if q else 1500)
+    _traces.validate_multi(ctx, ctx.seed + 202, 60 if q else 800, mrts4=6, tau4=8, ri=True)
+    if not q:
+        _traces.validate_multi(ctx, ctx.seed + 203, 600, T=16, maxsp=6, nmax=7, tau4=4)
     return ctx.finish(rule="lists of N trains (empty and repeated trains included) x entry point; "
                            "one case = one TLC state of Multi; every permutation of the list (N <= 3) / 6 of 24 (N = 4)")
 
@@ -484,6 +494,8 @@ def c17(ctx):
            ["FilterPartition", "FilterEqualsProfile"], ["multi_abs", "filter_rel"], "N = 3, thresholds 0, 1/2, 1, 1/4, 3/4")
     _multi(ctx, dict(N=4, ThrCodes="{13, 23, 12, 16}", Sample=4 if q else 6, TAU4=4, MRTS4=6), ["filter"],
            ["FilterPartition", "FilterEqualsProfile"], ["multi_abs", "filter_rel"], "N = 4, thresholds k/3 hit exactly")
+    _multi(ctx, dict(N=3, ThrCodes="{1, 12}", PoolMode='"deg"', TAU4=12), ["filter"],
+           ["FilterPartition", "FilterEqualsProfile"], ["multi_abs", "filter_rel"], "max_tau beyond half the recording")
     _multi(ctx, dict(N=2, MaxSp=3, ThrCodes="{1, 12, 11}", TE=5), ["filter"],
            ["FilterPartition", "FilterEqualsProfile"], ["multi_abs", "filter_rel"], "N = 2")
     return ctx.finish(rule="lists x thresholds (k/(N-1) exactly and mid-points); kept / removed arrays compared exactly")
